@@ -59,8 +59,8 @@ func Eligible() []int {
 	}
 	for _, t := range hist.Targets {
 		ft := t.Typ
-		if ft.NumOut() == 0 || t.Known != "" {
-			continue
+		if ft.NumOut() == 0 || t.Known != "" || t.Kind == "pkgfunc" {
+			continue // pkgfunc targets resolve relative to the package that calls goom (world hist only)
 		}
 		if t.IsMethod && (t.SkipRecv == nil || !t.SkipRecv(0)) {
 			continue // As(sig) paths match the receiver as an ordinary first argument: covered as functions
@@ -649,7 +649,9 @@ func (W) Exec(p *world.Plan, env *world.Env) {
 		for _, rc := range rs {
 			total++
 			env.Check()
-			env.T("ccall c%d clause=%d pos=%d panic=%v", rc.client, rc.clause, rc.pos, rc.panicked)
+			// positions depend on the interleaving, and the interleaving legitimately depends on the
+			// logging configuration (more yield points): the transcript keeps schedule-independent facts
+			env.T("ccall c%d clause=%d panic=%v", rc.client, rc.clause, rc.panicked)
 			if rc.clause == -2 {
 				if !rc.panicked || !strings.Contains(rc.msg, "no suitable condition") {
 					env.Res.At = x.at
